@@ -412,7 +412,8 @@ def near_ref(rng, titles):
         r2 = r1 + rng.choice([1, 1, 2, 3, 5, 8])
         return mkref(sheet, quoted, c1, r1, c2, r2, dollars)
     if kind == 'bigrect':
-        c1, r1, c2, r2 = rng.choice([(1, 1, 8, 24), (1, 1, 27, 4), (18, 1, 28, 12), (1, 497, 3, 503), (19, 498, 20, 502), (2, 6, 8, 8)])
+        c1, r1, c2, r2 = rng.choice([(1, 1, 8, 24), (1, 1, 27, 4), (18, 1, 28, 12), (1, 497, 3, 503), (19, 498, 20, 502), (2, 6, 8, 8),
+                                     (1, 1, 8, 130), (2, 1, 2, 1100)])     # the last two have more than 1000 cells
         return mkref(sheet, quoted, c1, r1, c2, r2, dollars)
     if kind == 'whole1':
         c = rng.choice(lowc + [26, 27, 9])
@@ -1443,17 +1444,17 @@ def plan_jobs(tier, seed):
         jobs.append(dict({'plan': plan, 'seed': seed * 1000003 + idx * 7919 + sum(map(ord, plan)), 'n': 0}, **kw))
     for i in range(16 if big else 4):
         add('lex', i, per_combo=18 if big else 2)
-    grid_titles = [['S', 'Q1-2024 (final)', 'Лист1'], ['My Sheet', 'T2', 'x,y;z']] + (title_sets(rng, 8, 3) if big else [])
+    grid_titles = [['S', 'Q1-2024 (final)', 'Лист1'], ['My Sheet', 'T2', 'x,y;z']] + (title_sets(rng, 6, 3) if big else [])
     for i, ts in enumerate(grid_titles):
         add('grid', i, titles=ts, second=False)
-    for i, ts in enumerate(title_sets(rng, 112 if big else 12, 3)):
+    for i, ts in enumerate(title_sets(rng, 72 if big else 12, 3)):
         add('sample', i, titles=ts, n=300 if big else 130, second=True)
-    for i, ts in enumerate(title_sets(rng, 12 if big else 3, 14)):
+    for i, ts in enumerate(title_sets(rng, 9 if big else 3, 14)):
         add('titles', i, titles=ts, n=60 if big else 28, second=big or i == 0)
-    for i, ts in enumerate(title_sets(rng, 24 if big else 3, 2)):
+    for i, ts in enumerate(title_sets(rng, 18 if big else 3, 2)):
         ts = [t for t in ts if t != EMPTY_TITLE]
         add('far', i, titles=ts, n=200 if big else 80, deep=(i % 3 == 2), second=(i % 2 == 0))
-    for i, ts in enumerate(title_sets(rng, 48 if big else 4, 3)):
+    for i, ts in enumerate(title_sets(rng, 36 if big else 4, 3)):
         ts = [t for t in ts if t != EMPTY_TITLE]
         add('fn', i, titles=ts, n=300 if big else 180, second=(i % 4 == 0))
     add('risky', 0, per_title=14 if big else 3)
@@ -1478,7 +1479,7 @@ CHECKS = [
      'one evaluation = value of one formula cell compared with the planted numbers of exactly the denoted cells (strict type and value; blank must be blank)', True),
     ('sample', 'C02.monitor.pipeline',
      'seeded references over planted workbooks of 3-4 sheets (ragged rows: a 2-wide row under an 8-wide one, an empty row, holes, an empty sheet, a sheet with '
-     'fewer rows): cells, ranges, rectangles up to 8x24 / 27x4, A:A..A:D, Z:AA, columns A..BA, rows 1..105 planted and 150..1048576 blank; forms =ref, ref+0, '
+     'fewer rows): cells, ranges, rectangles up to 8x24 / 27x4 / 8x130 (1040 cells) and B1:B1100, A:A..A:D, Z:AA, columns A..BA, rows 1..105 planted and 150..1048576 blank; forms =ref, ref+0, '
      'SUM, INDEX(i,j), INDEX(k); identical formula list at identical addresses on every sheet; whole-file and entry-point translation',
      'one evaluation = one formula cell on one sheet; unprefixed references are judged against the sheet that holds the formula', False),
     ('titles', 'C02.monitor.titles_and_sheet_order',
